@@ -643,9 +643,9 @@ H_BLOCK = ["div", "p", "ul", "li", "table", "tr", "td", "h1", "form", "blockquot
 H_INLINE = ["span", "b", "i", "a", "em", "q", "textarea", "button"]
 
 
-def gen_h_tree(r):
+def gen_h_tree(r, raw_wide=False):
     evs = []
-    mix = r.choice([["ascii"], ["ascii", "special"], ["ascii", "latin", "special"], ["ascii", "bmp"]])
+    mix = r.choice([["ascii"], ["ascii", "special"], ["ascii", "latin", "special"], ["ascii", "bmp"], ["ascii", "pair", "bmp"], ["ascii", "pair", "special", "latin"]])
 
     def attrs_for(name):
         at = []
@@ -654,11 +654,11 @@ def gen_h_tree(r):
                 at.append((u16(an), u16(an)))
         for (el, an) in sorted(HTML4_URI):
             if el == name and r.random() < 0.7:
-                at.append((u16(an), u16("http://h/") + rstr(r, r.choice([1, 3, 6]), ["ascii", "latin"] if r.random() < 0.5 else ["ascii"])))
+                at.append((u16(an), u16("http://h/") + rstr(r, r.choice([1, 3, 6]), r.choice([["ascii"], ["ascii", "latin"], ["ascii", "bmp", "pair"], ["pair", "latin", "special"]]))))
         if r.random() < 0.4:
             at.append((u16("class"), rstr(r, r.choice([1, 4]), mix)))
         if r.random() < 0.2:
-            at.append((u16("title"), rstr(r, 3, ["ascii", "special"])))
+            at.append((u16("title"), rstr(r, r.choice([1, 3, 5]), r.choice([["ascii", "special"], ["ascii", "pair"], ["pair", "bmp", "latin", "special"]]))))
         return at
 
     def el(name, depth):
@@ -666,7 +666,8 @@ def gen_h_tree(r):
         if name in HTML4_VOID:
             pass
         elif name in HTML4_RAW:
-            evs.append(("T", rstr(r, r.choice([1, 4, 9]), ["ascii", "special"]) + u16(" a<b && c>d ")))
+            # raw text has no character references: only what every encoding of the stream can write, or (raw_wide) anything
+            evs.append(("T", rstr(r, r.choice([1, 4, 9]), ["ascii", "special"] + (["pair", "bmp", "latin"] if raw_wide else [])) + u16(" a<b && c>d ")))
         else:
             for _ in range(r.choice([0, 1, 2, 3]) if depth < 4 else 0):
                 k = r.random()
@@ -762,8 +763,8 @@ def run_h(ctx, n, impl, model, html_names):
     # ---- random HTML trees: html.parser reads back the same structure, with and without indenting / META / URL escaping
     lines, meta = [], {}
     for i in range(n):
-        evs = gen_h_tree(r)
         enc = r.choice(["UTF-8", "UTF-8", "ISO-8859-1", "US-ASCII"])
+        evs = gen_h_tree(r, raw_wide=(enc == "UTF-8"))
         ind = r.choice([-1, 0, 2, 4])
         esc = r.choice([1, 1, 0])
         ometa = r.choice([0, 1])
